@@ -1472,3 +1472,33 @@ Proof.
   assert (R : reach cfg s) by (apply reach_run; constructor).
   apply (c_app _ _ _ _ (reach_inv_c cfg k r sd c Hsr Hss Hc Hck Hcb Hsc _ R)). left. exact Q.
 Qed.
+
+(* ------------------------------------------------------------------ part 12: runs after a reset *)
+Lemma reset_is_init : forall s cfg, reset s cfg = init cfg.
+Proof. reflexivity. Qed.
+
+Lemma run_history_last : forall v h s cfg sch,
+  run_history v s (h ++ [(cfg, sch)]) = run v (init cfg) sch.
+Proof.
+  intros v h. induction h as [|[c0 s0] h IH]; intros s cfg sch; simpl.
+  - reflexivity.
+  - apply IH.
+Qed.
+
+(* whatever holds for every run from a fresh hub holds for the run after any history and a reset *)
+Definition after_reset_stmt : Prop :=
+  forall (P : list (key * bool * list op) -> list nat -> state -> Prop),
+    (forall cfg sch, P cfg sch (run Fixed (init cfg) sch)) ->
+    forall s0 h cfg sch, P cfg sch (run_history Fixed s0 (h ++ [(cfg, sch)])).
+
+Theorem after_reset : after_reset_stmt.
+Proof. intros P H s0 h cfg sch. rewrite run_history_last. apply H. Qed.
+
+(* instance: exactly-once and in order relative to what was sent in THAT run *)
+Definition fifo_after_reset_stmt : Prop :=
+  forall s0 h cfg sch k, plain cfg k ->
+    let s := run_history Fixed s0 (h ++ [(cfg, sch)]) in
+    sent_log k (s_tr s) = recv_log k (s_tr s) ++ qget k (s_q s).
+
+Theorem fifo_after_reset : fifo_after_reset_stmt.
+Proof. intros s0 h cfg sch k Hp. rewrite run_history_last. apply fifo_exact; auto. Qed.
